@@ -246,3 +246,50 @@ def run(ctx):
                     ctx.fail(nm, 'gate %s on qubits %s (%s): forward is not the textbook conjugation' % (nm, qs, how), dict(N=n, qubits=qs, Ps=Ps, got=gotF, want=wantF))
                 if gotB != wantB:
                     ctx.fail(nm, 'gate %s on qubits %s (%s): backward is not the conjugation by the inverse gate' % (nm, qs, how), dict(N=n, qubits=qs, Ps=Ps, got=gotB, want=wantB))
+    # sequences of named gates placed with take(): the circuit acts as the gates applied one after the other in the order given
+    # (several gates stacked on one qubit, then a CNOT in either orientation across it), forward and backward, plain and compiled
+    one_q = [c_ for c_ in cases if c_[1] == 1]
+    two_q = [c_ for c_ in cases if c_[1] == 2]
+    inv_cache = {}
+    for _ in range(ctx.budget(40, 400)):
+        n = rng.choice([2, 3, 3, 4])
+        seq = []
+        qa = rng.randrange(n)
+        for _k in range(rng.choice([1, 2, 2, 3])):           # a stack on one qubit
+            seq.append((rng.choice(one_q), [qa]))
+        qb = rng.choice([q_ for q_ in range(n) if q_ != qa])
+        seq.append((rng.choice(two_q), sorted([qa, qb])))    # CNOT(c<t) or CNOT(c>t) across it
+        for _k in range(rng.randrange(0, 3)):
+            if rng.random() < 0.5:
+                seq.append((rng.choice(one_q), [rng.randrange(n)]))
+            else:
+                seq.append((rng.choice(two_q), sorted(rng.sample(range(n), 2))))
+        if rng.random() < 0.3:
+            rng.shuffle(seq)
+        Ps = [G.rand_op(rng, n) for _k in range(4)]
+        wantF = list(Ps)
+        for (nm_, nq_, rows_, mk_), qs_ in seq:
+            wantF = [H.map_apply_masked(rows_, qs_, P) for P in wantF]
+        wantB = list(Ps)
+        for (nm_, nq_, rows_, mk_), qs_ in reversed(seq):
+            if nm_ not in inv_cache:
+                inv_cache[nm_] = inv_rows(rows_)
+            wantB = [H.map_apply_masked(inv_cache[nm_], qs_, P) for P in wantB]
+        desc = [(c_[0], qs_) for c_, qs_ in seq]
+        for how in ('circuit', 'circuit-compiled', 'Circuit', 'Circuit-compiled'):
+            ctx.case(('named-sequence', how, n, str(desc), tuple(Ps)), True, sample=dict(op='sequence', how=how, N=n, gates=desc))
+            ctx.count('sequence:' + how)
+            try:
+                obj = (CI.Circuit(n) if how.startswith('Circuit') else CI.CliffordCircuit(n))
+                for (nm_, nq_, rows_, mk_), qs_ in seq:
+                    obj.take(mk_(qs_))
+                if how.endswith('compiled'):
+                    obj.compile()
+                gotF = impl.ops_of(obj.forward(impl.plist(Ps)))
+                gotB = impl.ops_of(obj.backward(impl.plist(Ps)))
+            except Exception as e:
+                ctx.fail('named gates in sequence', 'implementation raised %r (%s)' % (e, how), dict(N=n, gates=desc)); continue
+            if gotF != wantF:
+                ctx.fail('named gates in sequence', 'the circuit built from %s (%s) does not act as the gates applied in that order' % (desc, how), dict(N=n, gates=desc, Ps=Ps, got=gotF, want=wantF))
+            if gotB != wantB:
+                ctx.fail('named gates in sequence', 'the circuit built from %s (%s) run backward does not act as the inverse gates in reverse order' % (desc, how), dict(N=n, gates=desc, Ps=Ps, got=gotB, want=wantB))
